@@ -104,7 +104,9 @@ class Scheduler:
         self.permanent = []          # like anytime, but kept across story steps (e.g. shutdown)
         self.choice_n = 0
         self.filter = None           # optional: callable(gate) -> bool, which gates count as deviation candidates
-        self.frozen = []             # gates postponed by a deviation until nothing else can run
+        self.frozen = []             # gates postponed by a deviation for a full round of timers
+        self.held = []               # gates postponed only until no other call can run (before any timer fires)
+        self.hold_mode = False       # offer the short postponement as a deviation too
         self.triggers = []           # [label_prefix, nth, fn]: fn() right after the nth gate with that label opens
         self.window = None           # steps after the first deviation within which further ones may happen
         self.first_dev_step = None
@@ -201,6 +203,8 @@ class Scheduler:
         self.pending.remove(g)
         if g in self.frozen:
             self.frozen.remove(g)
+        if g in self.held:
+            self.held.remove(g)
         g.done = True
         self.trace.append(g.label + (' (orphan)' if g.orphan and not g.cont else ''))
         for tr in list(self.triggers):
@@ -225,7 +229,7 @@ class Scheduler:
             g.fut.set_result(res)
 
     def candidates(self):
-        calls = [g for g in self.pending if g.kind != 'time' and g not in self.frozen]
+        calls = [g for g in self.pending if g.kind != 'time' and g not in self.frozen and g not in self.held]
         # results of finished thread jobs are delivered first by default (FIFO among them)
         calls.sort(key=lambda g: (0 if g.kind == 'deliver' else 1, g.seq))
         times = [g for g in self.pending if g.kind == 'time']
@@ -250,6 +254,8 @@ class Scheduler:
             for g in calls:
                 if (self.filter is None or self.filter(g)) and (len(calls) > 1 or times):
                     options.append(('freeze', g))
+                    if self.hold_mode:
+                        options.append(('hold', g))
             for g in (times if calls else times[1:]):
                 options.append(('gate', g))
             for ev in self.anytime + self.permanent:
@@ -276,6 +282,9 @@ class Scheduler:
             if kind == 'freeze':
                 self.frozen.append(what)
                 self.trace.append('postpone:' + what.label)
+            elif kind == 'hold':
+                self.held.append(what)
+                self.trace.append('postpone-short:' + what.label)
             elif kind == 'gate':
                 self.open(what)
             else:
@@ -297,11 +306,15 @@ class Scheduler:
         raise RuntimeError('run_until: bound exceeded: ' + ' | '.join(self.trace[-12:]))
 
     def only_timers_pending(self):
-        return all(g.kind == 'time' or g in self.frozen for g in self.pending)
+        return all(g.kind == 'time' or g in self.frozen or g in self.held for g in self.pending)
 
     def thaw(self):
         '''The postponed gates become eligible again (FIFO).'''
         self.frozen = []
+        self.held = []
+
+    def release_held(self):
+        self.held = []
 
     def open_timer(self, g):
         self.open(g)
